@@ -14,7 +14,7 @@ OpCases == {[id |-> "op " \o ka \o " " \o op \o " " \o kb, setup |-> <<"a = " \o
 UnCases == {[id |-> "un " \o u \o " " \o k, setup |-> <<"a = " \o ValA(k)>>, e |-> u \o "a"] : u \in {"-", "!"}, k \in Kinds6}
 
 Recv == [str |-> "\"abc\"", int |-> "5", bigint |-> "B5", float |-> "2.5", byte |-> "0b101", list |-> "il", map |-> "mp", fnv |-> "fv", clo |-> "cl",
-         opt |-> "op1", nilopt |-> "op0", obj |-> "bx", strs |-> "sl", num |-> "\"42\"", lol |-> "ll"]
+         opt |-> "op1", nilopt |-> "op0", obj |-> "bx", strs |-> "sl", num |-> "\"42\"", lol |-> "ll", imap |-> "mi", fixl |-> "fx"]
 Calls == {
   <<"str", ".len()">>, <<"str", ".substring(z0, z1)">>, <<"str", ".contains(\"a\")">>, <<"str", ".index_of(\"b\")">>, <<"str", ".index_of(\"q\")">>,
   <<"str", ".reverse()">>, <<"str", ".insert(\"x\", z1)">>, <<"str", ".replace(\"a\", \"b\")">>, <<"str", ".delete(z0, z1)">>, <<"str", ".split(z1)">>,
@@ -38,6 +38,8 @@ Calls == {
   <<"fnv", ".is_closure()">>, <<"clo", ".is_closure()">>, <<"fnv", "()">>, <<"clo", "()">>, <<"fnv", "">>, <<"fnv", " is fv">>,
   <<"opt", " == nil">>, <<"opt", " == 4">>, <<"nilopt", " == nil">>, <<"opt", "">>, <<"nilopt", "">>, <<"obj", ".v">>, <<"obj", ".val()">>, <<"obj", ".me()">>,
   <<"obj", " is bx">>, <<"obj", ".w">>, <<"obj", ".ws">>, <<"obj", ".mk(2)">>,
+  <<"imap", "[1]">>, <<"imap", "[z1]">>, <<"imap", "[2 - 1]">>, <<"imap", "[B1]">>, <<"imap", ".len()">>, <<"imap", ".contains_key(2)">>, <<"imap", ".remove(2)">>,
+  <<"fixl", "[0]">>, <<"fixl", "[2]">>, <<"fixl", ".len()">>, <<"fixl", ".reverse()">>, <<"fixl", ".remove(2)">>, <<"fixl", ".index_of(1)">>, <<"fixl", ".map(dbl)">>,
   <<"list", "[fl]">>, <<"list", "[op1]">>, <<"str", "[fl]">>, <<"list", "[z0 + z1]">>, <<"map", "[z0]">>, <<"lol", "[z0][z1]">> }
 CallCases == {[id |-> "call " \o c[1] \o c[2], setup |-> <<>>, e |-> Recv[c[1]] \o c[2]] : c \in Calls}
 Prefixed == {[id |-> "pre get op1", setup |-> <<>>, e |-> "get op1"], [id |-> "pre (op1) or 9", setup |-> <<>>, e |-> "(op1) or 9"],
@@ -53,7 +55,7 @@ Prefixed == {[id |-> "pre get op1", setup |-> <<>>, e |-> "get op1"], [id |-> "p
               setup |-> <<"cru = fn(n: int) -> int {", "	idx = 7", "	from 0 to n, idx {", "		n = n + 0", "	}", "	return idx + n", "}">>]}
 
 Prologue == <<"z0 = 0", "z1 = 1", "z2 = 2", "fl = 1.5", "il: [int...] = [1, 2, 3]", "sl: [str...] = [\"x\", \"yy\"]", "ll: [[int...]...] = [[1], [2, 3]]",
-              "mp = map[str, int]{\"a\": 1, \"b\": 2}", "fv = fn() -> int { return 7 }", "cnt = 0",
+              "mp = map[str, int]{\"a\": 1, \"b\": 2}", "mi = map[int, str]{1: \"a\", 2: \"b\"}", "const fx = [10, 20, \"total\"]", "fv = fn() -> int { return 7 }", "cnt = 0",
               "cl = fn() -> int {", "	modify cnt = cnt + 1", "	return cnt", "}",
               "dbl = fn(q: int) -> int { return q * 2 }", "big = fn(q: int) -> bool { return q > 1 }", "slen = fn(q: str) -> int { return q.len() }",
               "fact = fn(n: int) -> int {", "	if n <= 1 {", "		return 1", "	}", "	return n * self(n - 1)", "}",
@@ -62,9 +64,16 @@ Prologue == <<"z0 = 0", "z1 = 1", "z2 = 2", "fl = 1.5", "il: [int...] = [1, 2, 3
               "	fn val(self) -> int {", "		return self.v", "	}", "	fn me(self) -> Self {", "		return self", "	}",
               "	fn mk(self, n: int) -> [int...] {", "		return [n, self.v]", "	}", "}", "bx = Box()">>
 
-VARIABLE c
-Init == c \in OpCases \cup UnCases \cup CallCases \cup Prefixed
-Next == UNCHANGED c
-Lines == Prologue \o c.setup \o <<"print \"GO\"", "r = " \o c.e, "print typeof r", "print r">>
-EmitCase == PrintT("CASE " \o ToJson([id |-> c.id, lines |-> Lines]))
+(* where the expression is evaluated: at module level, inside a function literal (every name it uses is then a captured *)
+(* variable) or inside a method                                                                                         *)
+Ctxs == {"module", "closure", "method"}
+VARIABLES c, ctx
+Init == c \in OpCases \cup UnCases \cup CallCases \cup Prefixed /\ ctx \in Ctxs
+Next == UNCHANGED <<c, ctx>>
+Probe(ind) == <<ind \o "r = " \o c.e, ind \o "print typeof r", ind \o "print r">>
+Lines == Prologue \o c.setup \o <<"print \"GO\"">> \o
+         (CASE ctx = "module" -> Probe("")
+            [] ctx = "closure" -> <<"cf = fn() {">> \o Probe("	") \o <<"}", "cf()">>
+            [] ctx = "method" -> <<"class Wc {", "	fn go(self) {">> \o Probe("		") \o <<"	}", "}", "wci = Wc()", "wci.go()">>)
+EmitCase == PrintT("CASE " \o ToJson([id |-> c.id \o " @" \o ctx, lines |-> Lines]))
 =============================================================================
